@@ -50,6 +50,8 @@ struct Scenario {
     dst: Vec<(String, Vec<u8>, i64)>,
     dir: u64, // 0 local 1 push 2 pull
     del: bool,
+    /// checked by the oracles only (no model line): the delete phase of a push is not part of the step model
+    oracle_only: bool,
 }
 
 /// calls executed by the killed process so far, mapped to model steps (delivery indices)
@@ -137,6 +139,7 @@ pub fn main(a: Args) -> i32 {
         dst: vec![("f".to_string(), b"OLD-VERSION".to_vec(), 1_400_000_000), ("outside-plan".to_string(), b"untouched".to_vec(), 1_300_000_000)],
         dir: 1,
         del: false,
+        oracle_only: false,
     });
     // directed: push of a multi-chunk file over an old version of the same length
     scenarios.push(Scenario {
@@ -144,6 +147,7 @@ pub fn main(a: Args) -> i32 {
         dst: vec![("f".to_string(), (0..300_000usize).map(|j| (j % 241) as u8).collect(), 1_400_000_000), ("outside-plan".to_string(), b"untouched".to_vec(), 1_300_000_000)],
         dir: 1,
         del: false,
+        oracle_only: false,
     });
     for i in 0..nscen {
         let dir = (i % 3) as u64;
@@ -171,7 +175,35 @@ pub fn main(a: Args) -> i32 {
         if del {
             dst.push(("stale".to_string(), b"to be deleted".to_vec(), 1_300_000_000));
         }
-        scenarios.push(Scenario { src, dst, dir, del });
+        scenarios.push(Scenario { src, dst, dir, del, oracle_only: false });
+    }
+    // directed: push --delete whose delete list is larger than a pipe (64 KiB): the list goes to the remote `xargs -0 rm`
+    // in several write calls, and a kill between two of them ends the remote input in the middle of a path.  The trees
+    // are laid out so that the cut after the first 65536 bytes falls right behind `<root>/keep/notes.txt`, a prefix of
+    // the stale `keep/notes.txt.orig` that names a file OUTSIDE the plan (present and identical on both sides).
+    {
+        let keep = "keep/notes.txt";
+        let head = dstd.len() + 1 + keep.len();                    // bytes of "<root>/keep/notes.txt"
+        let entry = 128usize;                                       // bytes of one filler entry, NUL included
+        let fixed = dstd.len() + 1 + 2 + 4;                         // "<root>/" "a/" "NNNN"
+        let room = 65536usize - head;
+        let m = room / entry;
+        let extra = room - m * entry;                               // added to the first filler's name
+        let mut src = vec![("f".to_string(), b"new".to_vec(), 1_500_000_000i64), ("outside-plan".to_string(), b"untouched".to_vec(), 1_300_000_000),
+                           (keep.to_string(), b"notes outside the plan".to_vec(), 1_300_000_000)];
+        let mut dst = vec![("outside-plan".to_string(), b"untouched".to_vec(), 1_300_000_000i64), (keep.to_string(), b"notes outside the plan".to_vec(), 1_300_000_000),
+                           (format!("{}.orig", keep), b"stale copy".to_vec(), 1_300_000_000)];
+        if entry > fixed + 1 && extra + entry - fixed - 1 <= 250 {
+            for i in 0..m {
+                let pad = entry - fixed - 1 + if i == 0 { extra } else { 0 };
+                dst.push((format!("a/{:04}{}", i, "x".repeat(pad)), b"s".to_vec(), 1_300_000_000));
+            }
+            for i in 0..150 {
+                dst.push((format!("z/{:04}{}", i, "y".repeat(100)), b"s".to_vec(), 1_300_000_000));
+            }
+            src.sort();
+            scenarios.insert(2, Scenario { src, dst, dir: 1, del: true, oracle_only: true });
+        }
     }
     let mut id = 0usize;
     let mut nfail = 0u64;
@@ -209,7 +241,8 @@ pub fn main(a: Args) -> i32 {
             continue;
         }
         // the plan's transfer list in plan order = source files that differ (all of them here)
-        let mut transfer: Vec<String> = sc.src.iter().map(|(p, _, _)| p.clone()).filter(|p| p != "outside-plan").collect();
+        let identical = |p: &String| sc.src.iter().any(|(q, c, m)| q == p && sc.dst.iter().any(|(q2, c2, m2)| q2 == q && c2 == c && m2 == m));
+        let mut transfer: Vec<String> = sc.src.iter().map(|(p, _, _)| p.clone()).filter(|p| !identical(p)).collect();
         transfer.sort_by(|x, y| std::path::PathBuf::from(x).cmp(&std::path::PathBuf::from(y)));
         let srcmap: BTreeMap<String, (Vec<u8>, i64)> = sc.src.iter().map(|(p, c, m)| (p.clone(), (c.clone(), *m))).collect();
         let dst0: Tree = sc.dst.iter().map(|(p, c, _)| (p.clone(), c.clone())).collect();
@@ -287,10 +320,18 @@ pub fn main(a: Args) -> i32 {
                 format!("{}:{}:{}", hex(p.as_bytes()), if cs.is_empty() { ".".to_string() } else { cs.join("+") }, m)
             }).collect::<Vec<_>>().join(";");
             let dst_case = if dst0.is_empty() { "-".to_string() } else { sc.dst.iter().map(|(p, c, _)| format!("{}:{}", hex(p.as_bytes()), hex(c))).collect::<Vec<_>>().join(";") };
+            if sc.oracle_only {
+                out.line("cases-oracle.txt", &format!("{} push --delete with a delete list of {} entries (> 64 KiB), kill before mutating call {}; the cut of the list after 65536 bytes falls behind the name of a file outside the plan", id, sc.dst.len() - 2, k));
+            } else {
             out.line("cases.txt", &format!("{} DST={} DS={} SCHED={} PUSH={}", id, dst_case, ds, if msched.is_empty() { "-".to_string() } else { msched.iter().map(|x| x.to_string()).collect::<Vec<_>>().join(",") }, (sc.dir == 1) as u8));
+            }
             // for the comparison ignore deletions done after the deliveries (the step model covers deliveries): mask paths the plan deletes
             let t_obs = if sc.del { t_obs.replace(&format!("{}=~", hex(b"stale")), &format!("{}={}", hex(b"stale"), hex(b"to be deleted"))) } else { t_obs };
-            out.line("impl.txt", &format!("{} T={} ST={}", id, t_obs, st_obs));
+            if !sc.oracle_only {
+                out.line("impl.txt", &format!("{} T={} ST={}", id, t_obs, st_obs));
+            } else {
+                out.count("kill_points_big_delete_list");
+            }
             out.count("kill_points");
             distinct.insert(format!("{}|{}", t_obs, st_obs));
             // ---- oracles on the implementation
@@ -303,12 +344,15 @@ pub fn main(a: Args) -> i32 {
                     out.line("specfail.txt", &format!("{} C09 killed before call {} ({}): destination path {:?} holds {} bytes that are neither its previous content nor the complete source file", id, k, ["local", "push", "pull"][sc.dir as usize], p, c.len()));
                 }
             }
-            if crashed.get("outside-plan") != Some(&b"untouched".to_vec()) {
-                nfail += 1;
-                out.line("specfail.txt", &format!("{} C09 a file outside the plan changed after a kill before call {}", id, k));
+            for (p, c, _) in sc.dst.iter().filter(|(p, _, _)| identical(p)) {
+                if crashed.get(p) != Some(c) {
+                    nfail += 1;
+                    out.line("specfail.txt", &format!("{} C09 a file outside the plan ({:?}, identical on both sides) changed or vanished after a kill before call {} ({})", id, p, k, ["local", "push", "pull"][sc.dir as usize]));
+                }
             }
             for p in dst0.keys() {
-                if !crashed.contains_key(p) && !(sc.del && p == "stale") {
+                if identical(p) { continue; }
+                if !crashed.contains_key(p) && !(sc.del && !srcmap.contains_key(p)) {
                     nfail += 1;
                     out.line("specfail.txt", &format!("{} C09 destination path {:?} vanished after a kill before call {}", id, p, k));
                 }
